@@ -37,6 +37,8 @@
 
 #include <algorithm>
 #include <atomic>
+#include <condition_variable>
+#include <mutex>
 #include <cstdlib>
 #include <chrono>
 #include <deque>
@@ -49,6 +51,7 @@
 #ifndef HGV_REPRO_NO_RECORD
 #include <hgraph/lib/std/operators/impl/record_replay_memory_impl.h>
 #include <hgraph/lib/testing/record_replay.h>
+#include <hgraph/types/static_node.h>
 #endif
 
 namespace hgraph::stdlib { void register_json_operators() {} }
@@ -94,10 +97,46 @@ namespace
         std::vector<Line>                                   specs;       // lines 10: parametrised schemas to request
         std::int64_t                                        chain_runs{0};  // line 11: chained companion runs
         bool                                                chain_sparse{false};
+        std::int64_t                                        wiring_sources{0}, wiring_builds{0}, wiring_seed{0};  // line 12
+        std::int64_t                                        context_variant{-1};  // line 13: -1 none, 0 B without context, 1 B own context
+    };
+
+    // lets a run be parked inside its first user-code evaluation (the GlobalContext phase)
+    struct Blocker
+    {
+        std::mutex              mutex;
+        std::condition_variable changed;
+        bool                    entered{false}, release{false};
+        void hit()
+        {
+            std::unique_lock lock{mutex};
+            if (entered) { return; }
+            entered = true;
+            changed.notify_all();
+            changed.wait_for(lock, std::chrono::seconds{10}, [&] { return release; });
+        }
+        void finished()
+        {
+            std::lock_guard lock{mutex};
+            entered = true;
+            changed.notify_all();
+        }
+        void wait_entered()
+        {
+            std::unique_lock lock{mutex};
+            changed.wait_for(lock, std::chrono::seconds{10}, [&] { return entered; });
+        }
+        void let_go()
+        {
+            std::lock_guard lock{mutex};
+            release = true;
+            changed.notify_all();
+        }
     };
 
     struct RunCtx
     {
+        Blocker                  *blocker{nullptr};
         const Prog               *prog{nullptr};
         hgv::Out                  out;
         std::vector<std::int64_t> runs;
@@ -347,6 +386,7 @@ namespace
                 const NodeSpec    &n = p->nodes[i];
                 const std::int64_t k = r.runs[i]++;
                 maybe_sleep(r);
+                if (r.blocker != nullptr) { r.blocker->hit(); }
                 Line l{12, (std::int64_t)i, us(t), k};
                 if (n.uses_sched)
                 {
@@ -813,6 +853,86 @@ namespace
         }
     }
 
+    // ------------------------------------------------------------------ Wiring-built program (line 12): the ranking pass
+    // N rank-independent sources, each feeding its own sink; every node appends its id to a string in the run's GlobalState
+    // when it evaluates, so that string is the compiled node order (all nodes run in the first cycle, in index order).
+#ifndef HGV_REPRO_NO_RECORD
+    struct WiredSource
+    {
+        static constexpr auto name              = "hgv_wired_source";
+        static constexpr bool schedule_on_start = true;
+        static void eval(Scalar<"id", Int> id, GlobalStateView gs, Out<TS<Int>> out)
+        {
+            Str trace = gs.get_as<Str>("trace");
+            if (!trace.empty()) { trace += ","; }
+            trace += std::to_string(id.value());
+            gs.set("trace", Value{trace});
+            out.set(id.value());
+        }
+    };
+
+    struct WiredSink
+    {
+        static constexpr auto name = "hgv_wired_sink";
+        static void eval(In<"in", TS<Int>> in, Scalar<"id", Int> id, GlobalStateView gs)
+        {
+            Str trace = gs.get_as<Str>("trace");
+            if (!trace.empty()) { trace += ","; }
+            trace += std::to_string(id.value());
+            gs.set("trace", Value{trace});
+            const Int sum = gs.contains("sum") ? gs.get_as<Int>("sum") : Int{0};
+            gs.set("sum", Value{sum + in.value()});
+        }
+    };
+
+    void wiring_build_and_run(std::int64_t sources, hgv::Out &out)
+    {
+        Wiring w;
+        // sinks of the even sources are wired right after their source, those of the odd sources at the end
+        std::vector<std::pair<std::int64_t, decltype(wire<WiredSource>(w, Int{0}))>> later;
+        for (std::int64_t id = 1; id <= sources; ++id)
+        {
+            auto src = wire<WiredSource>(w, Int{id});
+            if (id % 2 == 0) { wire<WiredSink>(w, src, Int{100 + id}); }
+            else { later.emplace_back(id, src); }
+        }
+        for (auto &[id, src] : later) { wire<WiredSink>(w, src, Int{100 + id}); }
+        GraphBuilder gb = std::move(w).finish();
+        gb.global_state().set("trace", Value{Str{}});
+        GraphExecutorBuilder eb;
+        eb.graph_builder(std::move(gb)).start_time(MIN_ST).end_time(MIN_ST + TimeDelta{5});
+        GraphExecutorValue ex = eb.make_executor();
+        auto               ev = ex.view();
+        ev.run();
+        const GlobalStateView gs = ev.graph().global_state();
+        Line                  l{60};
+        const Str             trace = gs.get_as<Str>("trace");
+        std::size_t           pos   = 0;
+        while (pos < trace.size())
+        {
+            const std::size_t comma = trace.find(',', pos);
+            l.push_back(std::stoll(trace.substr(pos, comma == std::string::npos ? std::string::npos : comma - pos)));
+            if (comma == std::string::npos) { break; }
+            pos = comma + 1;
+        }
+        out.line(l);
+        out.line({61, (std::int64_t)ev.graph().node_count(), gs.contains("sum") ? (std::int64_t)gs.get_as<Int>("sum") : -1});
+    }
+#endif
+
+    // deterministic heap perturbation between builds: stands in for whatever else the process allocated earlier
+    void perturb_heap(std::uint64_t &state, std::vector<void *> &kept)
+    {
+        std::vector<void *> temp;
+        for (int i = 0; i < 160; ++i)
+        {
+            state   = state * 6364136223846793005ULL + 1442695040888963407ULL;
+            void *b = std::malloc(16 + (std::size_t)((state >> 33) % 1200));
+            (((state >> 20) % 3 == 0) ? kept : temp).push_back(b);
+        }
+        for (void *b : temp) { std::free(b); }
+    }
+
     // ------------------------------------------------------------------ case parsing
     struct CaseData
     {
@@ -860,6 +980,8 @@ namespace
                 case 8: cd.progs.emplace_back(); cur = &cd.progs.back(); break;
                 case 10: if (l.size() >= 3) { cur->specs.push_back(l); } break;
                 case 11: if (l.size() >= 3) { cur->chain_runs = l[1]; cur->chain_sparse = l[2] != 0; } break;
+                case 12: if (l.size() >= 4) { cur->wiring_sources = l[1]; cur->wiring_builds = l[2]; cur->wiring_seed = l[3]; } break;
+                case 13: if (l.size() >= 2) { cur->context_variant = l[1]; } break;
                 case 9:
                     if (l.size() >= 6) { cd.R = l[1]; cd.F = l[2]; cd.T = l[3]; cd.sleep_seed = l[4]; cd.flags = l[5]; }
                     break;
@@ -1134,6 +1256,99 @@ namespace
                     out.line({43, (std::int64_t)sct, 0});
                     for (const Line &spec : cd.progs[sct].specs) { probe_schema((std::int64_t)sct, spec, out); }
                 }
+            }
+
+            // ---- Wiring-built program (header 45 b 0): built and run B times, the heap perturbed and another wiring built in
+            // between; compiled node order and sums must be the same every time
+#ifndef HGV_REPRO_NO_RECORD
+            if (mainp->wiring_sources > 0 && mainp->wiring_builds > 0)
+            {
+                std::uint64_t       hstate = (std::uint64_t)mainp->wiring_seed * 2654435761ULL + 12345;
+                std::vector<void *> kept;
+                for (std::int64_t b = 0; b < mainp->wiring_builds; ++b)
+                {
+                    out.line({45, b, 0});
+                    try { wiring_build_and_run(mainp->wiring_sources, out); }
+                    catch (const std::exception &e)
+                    {
+                        out.line({19, 6});
+                        std::fprintf(stderr, "wiring program error: %s\n", e.what());
+                    }
+                    perturb_heap(hstate, kept);
+                    if (b % 2 == 1)
+                    {
+                        hgv::Out discard;
+                        try { wiring_build_and_run(3 + b % 4, discard); } catch (const std::exception &) {}
+                    }
+                }
+                for (void *blk : kept) { std::free(blk); }
+            }
+#endif
+
+            // ---- GlobalContext phase (headers 46 who variant): thread A selects a GlobalContext holding {700: 7, 701: 70},
+            // builds the main program inside it and is parked inside its first user-code evaluation; meanwhile THIS thread
+            // (B) builds and runs the same program without a context (variant 0) or inside its own context {710: 8}
+            // (variant 1).  Builds never overlap (A's is finished before B's starts).
+            if (mainp->context_variant >= 0)
+            {
+                Blocker     blocker;
+                RunCtx      ra = fresh_ctx(mainp, (std::uint64_t)cd.sleep_seed, ++ordinal);
+                RunCtx      rb = fresh_ctx(mainp, (std::uint64_t)cd.sleep_seed, ++ordinal);
+                hgv::Out    sa_after, sb_after;
+                std::string a_error;
+                ra.blocker = &blocker;
+                std::thread ta([&] {
+                    try
+                    {
+                        GlobalState sa;
+                        sa.view().set(key_name(700), Value{std::int64_t{7}});
+                        sa.view().set(key_name(701), Value{std::int64_t{70}});
+                        {
+                            GlobalContext        ctx{sa};
+                            GraphExecutorBuilder eb = make_builder(mainp);
+                            GraphExecutorValue   ex = eb.make_executor();
+                            run_executor(mainp, ex, ra);
+                        }
+                        dump_global_state(sa.view(), sa_after);
+                    }
+                    catch (const std::exception &e) { a_error = e.what(); }
+                    blocker.finished();
+                });
+                blocker.wait_entered();
+                try
+                {
+                    GlobalState sb;
+                    sb.view().set(key_name(710), Value{std::int64_t{8}});
+                    std::optional<GlobalContext> ctx;
+                    if (mainp->context_variant == 1) { ctx.emplace(sb); }
+                    {
+                        GraphExecutorBuilder eb = make_builder(mainp);
+                        GraphExecutorValue   ex = eb.make_executor();
+                        run_executor(mainp, ex, rb);
+                    }
+                    ctx.reset();
+                    dump_global_state(sb.view(), sb_after);
+                }
+                catch (const std::exception &e)
+                {
+                    rb.out.line({18, 3});
+                    std::fprintf(stderr, "context phase, thread B: %s\n", e.what());
+                }
+                blocker.let_go();
+                ta.join();
+                if (!a_error.empty())
+                {
+                    ra.out.line({18, 3});
+                    std::fprintf(stderr, "context phase, thread A: %s\n", a_error.c_str());
+                }
+                out.line({46, 0, mainp->context_variant});
+                out.buf += ra.out.buf;
+                out.line({47, 0});
+                out.buf += sa_after.buf;
+                out.line({46, 1, mainp->context_variant});
+                out.buf += rb.out.buf;
+                out.line({47, 1});
+                out.buf += sb_after.buf;
             }
             // all executors are destroyed here, on the main thread, after every run finished
         }
